@@ -424,6 +424,10 @@ func runC13(c *engine.Ctx) {
 	// ---- R8 channel typestate (shared with C16.R3): the groups' hand-off channels are closed once, and a closed
 	// channel is reset where the object can be reused by an overlapping join ----
 	c16ChannelsPrefixed(c, li, "R8")
+
+	// ---- R9 lock order (shared with C16.R11): "no ordering of joins and leaves can bring the server down" — the
+	// controller lock and the group lock are never taken in both orders ----
+	c16LockOrder(c, li, "R9")
 }
 
 // checkCleanupAfterAcquire (C13.R2 second half, also C10.R10): a closure that releases a registration is queued for
